@@ -124,7 +124,7 @@ def R1_plugin(ctx):
     ctx.check(okr, "copy-minus-grid-key", "children are not built from a copy of the original object with the grid key removed", b.where(), detail="clone().remove(grid_search)")
     # overlay closure
     cl = [x for x in subterms(val) if x[0] == "closure"]
-    okc = False
+    okc = okc_walk = False
     detail = None
     for k in cl:
         if k[1] not in F.bodies:
@@ -145,8 +145,8 @@ def R1_plugin(ctx):
         if len(ims) < 2:
             continue
         okc = bool(nested) and bool(obj_sw)
+        okc_walk = bool(obj_sw)
         detail = [short(x)[:60] for x in keys_used]
-    ctx.check(okc, "overlay", "each combination is not overlaid with multiset_input[axis][index] (object choices merged, others under the axis key): %s" % detail, b.where(), detail=str(detail))
     # the same axis everywhere: read position by position, the loop over the axes stores options[i][combination[i]] under keys[i]
     I = ("i",)
     aligned, why_al = False, "no loop over the axes that writes the chosen option under the axis key was found"
@@ -204,6 +204,9 @@ def R1_plugin(ctx):
                     else:
                         continue
                     break
+    # (options[axis][index] spelled with two index operations, or the option list walked in step with the keys — then the
+    # position-by-position reading above has shown it is options[i][combination[i]])
+    ctx.check(okc or (okc_walk and aligned), "overlay", "each combination is not overlaid with multiset_input[axis][index] (object choices merged, others under the axis key): %s" % detail, b.where(), detail=str(detail))
     ctx.check(aligned, "overlay:same-axis", "the overlay does not use the same axis index for the key, the option list and the chosen position: %s" % why_al, b.where(), detail="child[keys[i]] = options[i][combination[i]]")
 
 
